@@ -366,6 +366,71 @@ func poolStepsFromHistory(h []any) ([]poolStep, []evKey) {
 	return steps, keys
 }
 
+// runLateSubmit: task 1 is long (gated); the main goroutine calls Wait while it runs; meanwhile another
+// goroutine submits short tasks that complete. Legal for a WaitGroup (the counter never reaches zero while
+// the long task runs). Wait must not return before the long task has finished.
+func runLateSubmit(workers, shorts int) []Event {
+	var mu sync.Mutex
+	var evs []Event
+	log := func(e Event) { mu.Lock(); evs = append(evs, e); mu.Unlock() }
+	pool := flyt.NewWorkerPool(workers)
+	gate := make(chan struct{})
+	long := 1000001
+	cells := map[int]*int{long: new(int)}
+	for j := 1; j <= shorts; j++ {
+		cells[2000000+j] = new(int)
+	}
+	task := func(t int, gated bool) func() {
+		return func() {
+			log(Event{"ev": "taskstart", "task": t, "gid": 0})
+			if gated {
+				select {
+				case <-gate:
+				case <-time.After(5 * time.Second):
+				}
+			}
+			*cells[t] = t
+			log(Event{"ev": "taskend", "task": t, "gid": 0})
+		}
+	}
+	log(Event{"ev": "submit", "task": long, "sub": 1})
+	pool.Submit(task(long, true))
+	log(Event{"ev": "submitret", "task": long, "sub": 1})
+	waited := make(chan struct{})
+	go func() {
+		log(Event{"ev": "waitcall", "round": 1})
+		pool.Wait()
+		seen := 0
+		if *cells[long] == long {
+			seen = 1
+		}
+		log(Event{"ev": "waitret", "round": 1, "seen": seen, "submitted": 1})
+		close(waited)
+	}()
+	time.Sleep(2 * time.Millisecond) // let Wait block
+	for j := 1; j <= shorts; j++ {
+		t := 2000000 + j
+		log(Event{"ev": "submit", "task": t, "sub": 2})
+		pool.Submit(task(t, false))
+		log(Event{"ev": "submitret", "task": t, "sub": 2})
+	}
+	time.Sleep(5 * time.Millisecond) // the short tasks complete while the long one is still running
+	close(gate)
+	select {
+	case <-waited:
+	case <-time.After(10 * time.Second):
+		log(Event{"ev": "hang"})
+	}
+	pool.Wait()
+	log(Event{"ev": "closecall"})
+	pool.Close()
+	log(Event{"ev": "closeret"})
+	log(Event{"ev": "leak", "n": 0})
+	mu.Lock()
+	defer mu.Unlock()
+	return append([]Event{}, evs...)
+}
+
 func init() {
 	families["pool"] = func(o *Out, scnFile string, seed int64, count int, modes string, opts map[string]string) {
 		id := 0
@@ -416,6 +481,14 @@ func init() {
 				continue
 			}
 			r := rand.New(rand.NewSource(seed*104729 + int64(mi)))
+			if mode == "latesubmit" {
+				for i := 0; i < 6; i++ {
+					w, k := 2+r.Intn(4), 3+r.Intn(20)
+					id++
+					o.WriteScenario(id, "pool", "gen:latesubmit", PoolCfg{W: w, S: 2, Per: k, Rounds: 1, Sched: "latesubmit"}.toJSON(), nil, runLateSubmit(w, k))
+				}
+				continue
+			}
 			for i := 0; i < count; i++ {
 				cfg := PoolCfg{W: r.Intn(18) - 1, S: 1 + r.Intn(4), Per: r.Intn(12), Rounds: 1 + r.Intn(3), Sched: []string{"random", "free"}[r.Intn(2)]}
 				switch mode {
